@@ -36,7 +36,7 @@ META = {
                   "seeds and scripted extreme primitive draws), instrumented from outside; each logged run is shipped to Coq with exact "
                   "float values and must be accepted by the proved checker; an independent oracle re-calls the raw user function for "
                   "every exposed solution at every step boundary.",
-    "level_note": "Trusted: Coq kernel + VM; the harness (monkey-patched evaluate_all / __deepcopy__ / run callback, literal printer, shard runner). "
+    "level_note": "Tie/T01.v also states clause 1 about the Problem.__call__ GENERATED from the source text (tie_c01_generated_problem_call_good). Trusted: Coq kernel + VM; the harness (monkey-patched evaluate_all / __deepcopy__ / run callback, literal printer, shard runner). "
                   "Design theorem 5: step MODELS of all 15 algorithms (Model/AlgSteps.v: selection/variation randomness = tapes, operators / "
                   "survival / archive insertion = abstract functions with stated contracts 'flag discipline', 'flag clear', 'output subset of "
                   "input') are proved to be instances of the skeleton (c01_<alg>_step_ok); that the real code follows these models is "
